@@ -1,5 +1,27 @@
+from io import BytesIO
+
 import networkx as nx
 import tablib
+from openpyxl import load_workbook
+
+
+def as_text_cells(xlsx_data):
+    """
+    Turn the formula cells of an XLSX workbook into text cells.
+
+    The cells of an exported sheet are text. A spreadsheet stores text that starts
+    with "=" as a formula; a formula has no value when the file is read back, so
+    the cell would come back empty.
+    """
+    workbook = load_workbook(BytesIO(xlsx_data))
+    for sheet in workbook.worksheets:
+        for row in sheet.iter_rows():
+            for cell in row:
+                if cell.data_type == "f":
+                    cell.data_type = "s"
+    stream = BytesIO()
+    workbook.save(stream)
+    return stream.getvalue()
 
 
 class RowDataSheet:
@@ -38,6 +60,8 @@ class RowDataSheet:
         """
         data = self.convert_to_tablib()
         exported_data = data.export(file_format)
+        if file_format == "xlsx":
+            exported_data = as_text_cells(exported_data)
         if type(exported_data) is str:
             # There is a strange bug where on Windows, csv files would get
             # exported with \r\r\n linebreaks. The below fixes this.
